@@ -71,6 +71,12 @@ func c05Bulk(tier string, seed int64, idx int, scratch string) rt.CaseResult {
 			return c
 		}
 	}
+	// pairs of keys that collide under common 32-bit hash functions (each must stay its own key)
+	for _, pair := range collidingKeyPairs(seed + int64(idx)) {
+		if !set(pair.a, seqrun.Content("collide-a-"+pair.hash, 20)) || !set(pair.b, seqrun.Content("collide-b-"+pair.hash, 24)) {
+			return c
+		}
+	}
 	// a transaction that commits a few dozen keys, overwrites and deletions (their old records stay
 	// until the collector runs, which it does not here)
 	tx, err := env.DB.Begin(ctxBg, 1)
